@@ -183,7 +183,7 @@ def run(ctx, im, mo, n_trees, extra=()):
     for t, x, r, m in zip(trees, xmls, reps, mreps):
         why = in_guard(t)
         mv = m.get("v") if m.get("r") == "ok" else None
-        item = {"xml": x, "guard_py": why, "impl": r, "model": mv, "lines": pre[1:] + [{"op": "hook", "which": "clean_only", "xml": x}]}
+        item = {"xml": x, "guard_py": list(why), "impl": r, "model": mv, "lines": pre[1:] + [{"op": "hook", "which": "clean_only", "xml": x}]}
         if mv is None:
             item["agree"] = None
         else:
@@ -191,6 +191,8 @@ def run(ctx, im, mo, n_trees, extra=()):
             if mv.get("restarts"):
                 why.append("a parent's loop restarts (second cleaning pass)")
             item["in_guard"] = (not why) and mv["vocab"]
+            item["why_out"] = sorted(set(why)) + ([] if mv["vocab"] else ["element outside the modelled vocabulary"])
+            item["shape_in"] = norm_shape(mv["shape_in"])
             if r.get("r") == "ok":
                 item["impl_shape"] = norm_shape(shape_of_xml(r["v"]))
                 item["model_shape"] = norm_shape(mv["out"]) if mv["out"] is not None else None
@@ -201,3 +203,11 @@ def run(ctx, im, mo, n_trees, extra=()):
                 item["model_shape"] = norm_shape(mv["out"]) if mv["out"] is not None else None
         out.append(item)
     return out
+
+
+def reason_counts(results):
+    c = {}
+    for r in results:
+        for w in r.get("why_out", []):
+            c[w] = c.get(w, 0) + 1
+    return c
